@@ -37,6 +37,7 @@ def run(chk: Check) -> None:
     run_notes_carry_code(chk, ix)
     run_watchers_see_everything(chk, ix)
     run_state_asks_about_its_own_module(chk, ix)
+    run_severity_by_first_marker(chk, ix)
     aei = ix.func("mypy.errors.Errors.add_error_info")
     g = CFG(aei.node)
 
@@ -643,3 +644,21 @@ def run_state_asks_about_its_own_module(chk: Check, ix) -> None:
         else:
             r.violation(key, f.loc(asks[0]), "`self.manager.errors.is_error_code_enabled(...)` is asked without a preceding set_file(self.xpath, ...): with `[mypy-a] enable_error_code = ignore-without-code` and a cycle a <-> b, `mypy a.py b.py` reports the error in both modules and `mypy b.py a.py` in none")
     # no asker at all: the instance floor of the rule reports it (as a note when the property already has a violation)
+
+
+def run_severity_by_first_marker(chk: Check, ix) -> None:
+    """R13.14: whether a formatted message is an error or a note is not decided by the text it quotes."""
+    r = chk.rule("R13.14", "util.count_stats (the summary line, and through util.only_notes the exit status of mypy and the daemon) classifies formatted messages; a message may quote program text containing `: note:` or `: error:` (a string literal, a Literal type), so the two selections are not two independent containment tests (`': error:' in e`, `': note:' in e`): an error quoting `: note:` would count as a note (exit status 0 with `Found 1 error`), a note quoting `: error:` as an error", floor=1)
+    f = ix.func("mypy.util.count_stats")
+    bare = []
+    for comp in ast.walk(f.node):
+        if isinstance(comp, (ast.ListComp, ast.SetComp, ast.GeneratorExp)):
+            for g in comp.generators:
+                for c in g.ifs:
+                    if isinstance(c, ast.Compare) and len(c.ops) == 1 and isinstance(c.ops[0], ast.In) and isinstance(c.left, ast.Constant) and isinstance(c.left.value, str) and c.left.value.strip() in (": error:", ": note:", "error:", "note:"):
+                        bare.append(c)
+    key = "count_stats: a message is classified by its severity marker, not by containing a marker's text"
+    if len(bare) >= 2:
+        r.violation(key, f.loc(bare[0]), f"`{norm(bare[0])}` and `{norm(bare[1])}` are independent containment tests: `x: Literal[\"a\"] = \": note:\"` is counted as an error *and* as a note, only_notes() holds and mypy exits 0 although it found an error")
+    else:
+        r.ok(key, f.loc())
